@@ -97,8 +97,8 @@ def main():
             unrec += bool(ue) and not fa
             print(f'{name}: {"FALSE ALARM " + str(sorted(fa)) if fa else ""} {"unrecognised " + str(sorted(ue)) if ue else ""}{"silent" if not fa and not ue else ""}')
             for p, ls in list(fa.items()) + list(ue.items()):
-                for l in ls[:2]:
-                    print('     ', l[:260])
+                for l in ls[:(40 if '-v' in sys.argv else 2)]:
+                    print('     ', l[:(400 if '-v' in sys.argv else 260)])
     print(f'twins: {len(names)}  false alarms: {alarms}  unrecognised only: {unrec}')
 
 
